@@ -14,6 +14,7 @@ from props import repro_sim
 ID = "C05"
 LEVEL = "exploration"
 TIERS = {"quick": {"runs": 32000, "wall": 150}, "thorough": {"runs": 800000, "wall": 1500}}
+HASHSEED_RUNS = {"quick": 300, "thorough": 3000}    # S7: identical event logs under other hash seeds
 RULE = ("world = seeded valid document kept as segments (1..4 paragraphs x 1..6 fields, field "
         "comments, multi-line values with space/tab continuations and inline comments, odd "
         "spacing, free comments between paragraphs, with or without final newline); trace = "
